@@ -54,10 +54,25 @@ def resolveAgg (c : Cte) (a : AExpr × String) : Option FlatAgg :=
   | .agg f (.col k) => (cteLookup c k).map fun raw => ⟨f, (splitCase raw).1, (splitCase raw).2, a.2⟩
   | _ => none
 
-/-- a plan consisting of one CTE and one aggregating SELECT over it, without outer WHERE/HAVING -/
+/-- HAVING expressions that only look at output columns (no aggregate calls) -/
+def AExpr.noAgg : AExpr → Bool
+  | .agg _ _ => false
+  | .lit _ => true
+  | .bin _ a b => a.noAgg && b.noAgg
+  | .nullif a b => a.noAgg && b.noAgg
+  | .coalesce a b => a.noAgg && b.noAgg
+  | .case c a b => c.noAgg && a.noAgg && b.noAgg
+  | .paren a => a.noAgg
+  | .outRef _ => true
+
+/-- a plan consisting of one CTE and one aggregating SELECT over it, without outer WHERE; HAVING
+may only refer to output columns -/
 def Plan.fusable (p : Plan) (c : Cte) : Bool :=
-  p.ctes == [c] && p.base == c.name && p.joins.isEmpty && p.where_.isEmpty && p.having.isEmpty &&
+  p.ctes == [c] && p.base == c.name && p.joins.isEmpty && p.where_.isEmpty && p.having.all AExpr.noAgg &&
   !p.ungrouped && p.dims.all (fun it => (resolveKey c it).isSome) && p.mets.all (fun a => (resolveAgg c a).isSome)
+
+/-- HAVING as a predicate on an output row -/
+def havingHolds (hs : List AExpr) (out : Row) : Bool := hs.all fun h => (h.eval out []).isTrue
 
 def Plan.fuse (p : Plan) (c : Cte) : FlatQuery :=
   { filt := c.where_, keys := p.dims.filterMap (resolveKey c), aggs := p.mets.filterMap (resolveAgg c) }
